@@ -317,7 +317,8 @@ def conclusion_c01(mon, tr):
     for i in range(K):
         if i in P:
             if gaps[i] > eps + tau:
-                ratio = float(np.max((W @ alpha) / alpha))
+                # the rectangle-mode variants use the K-vector eps*alpha as an m-vector shift: only defined for K == m
+                ratio = float(np.max((W @ alpha) / alpha)) if W.shape[0] == W.shape[1] else float("nan")
                 rect_mode = case["variant"] in ("PaVeBaGP-IH", "PartialGP-rect")
                 if rect_mode and ratio > 1 + 1e-9 and gaps[i] <= eps * ratio * (1 + 1e-6):
                     mech = "c01:gap:rect-mode-obtuse-slack"
@@ -422,7 +423,7 @@ def check_accounting(mon, tr):
         ctx = {**pub, "step": k, "round": st["round_pre"]}
         if done_seen or st.get("after_completion"):
             mon.count("post_completion_steps")
-            if st["returned"] is not True:
+            if not bool(st["returned"]):
                 mon.violation("account:completion-not-sticky", f"{v}: a step after completion returned {st['returned']}", ctx)
             if (S0, P0, U0) != (S1, P1, U1) or st["round_pre"] != st["round_post"] or st["count_pre"] != st["count_post"] \
                     or st["cost_pre"] != st["cost_post"] or n_eval:
